@@ -530,6 +530,8 @@ func (ev *SpecEnv) valEq(a, b Val, e ast.Expr) *Term {
 			return ev.ex.isNilIface(x)
 		case SliceV:
 			return BoolC(x.Region == nil)
+		case MapV:
+			return BoolC(x.Cell == nil)
 		case PtrV:
 			switch x.K {
 			case PNil:
@@ -642,6 +644,35 @@ func (ev *SpecEnv) callExpr(x *ast.CallExpr) (Val, types.Type) {
 		mem := ev.heapMem(sv.Region)
 		ev.ex.Funs["0uf_beval"] = fmt.Sprintf("(declare-fun beval (%s Int Int) Int)", mem.S)
 		return Scalar{App("beval", IntSort, mem, sv.Off, sv.Len)}, nil
+	case "mhas", "mget":
+		// mhas(m, k): key k is present in map m; mget(m, k): the value stored under k (the zero value if absent)
+		need(2)
+		mvv, _ := ev.eval(x.Args[0])
+		ms, mt := ev.specMap(mvv)
+		kv, _ := ev.eval(x.Args[1])
+		if ms == nil {
+			if name == "mhas" {
+				return Scalar{False}, types.Typ[types.Bool]
+			}
+			return ev.ex.zeroVal(ev.st, mt.Elem()), mt.Elem()
+		}
+		if u, isU := kv.(UConst); isU {
+			kv = Scalar{IntBig(u.V)}
+		}
+		k := ev.ex.termOfMapElem(kv, "key")
+		if name == "mhas" {
+			return Scalar{Select(ms.Present, k)}, types.Typ[types.Bool]
+		}
+		vs := ev.ex.mapKeySort(mt.Elem())
+		return ev.ex.mapElemVal(mt.Elem(), Ite(Select(ms.Present, k), Select(ms.Vals, k), ev.ex.zeroTermOf(vs))), mt.Elem()
+	case "mlen":
+		need(1)
+		mvv, _ := ev.eval(x.Args[0])
+		ms, _ := ev.specMap(mvv)
+		if ms == nil {
+			return Scalar{ev.ex.idxConst(0)}, types.Typ[types.Int]
+		}
+		return Scalar{ms.Size}, types.Typ[types.Int]
 	case "betail64", "bevalue":
 		// betail64(s): the big-endian value, as uint64, of the last min(len(s), 8) bytes of byte slice s (bv mode).
 		// bevalue(s): the same in bv mode; in int mode the (uninterpreted) big-endian value beval(s) of all of s.
@@ -730,9 +761,15 @@ func (ev *SpecEnv) callExpr(x *ast.CallExpr) (Val, types.Type) {
 		ev.fail("len of %s", valString(v))
 	case "kind":
 		need(1)
-		v, _ := ev.eval(x.Args[0])
+		v, vt := ev.eval(x.Args[0])
 		iv, ok := v.(IfaceV)
 		if !ok {
+			// a value of statically known concrete type (e.g. the receiver `self` of an expanded interface contract)
+			if vt != nil {
+				if _, isIface := vt.Underlying().(*types.Interface); !isIface {
+					return Scalar{IntC(int64(ev.ex.P.TypeTag(vt)))}, nil
+				}
+			}
 			ev.fail("kind() of non-interface %s", valString(v))
 		}
 		return Scalar{iv.Kind}, nil
@@ -1042,6 +1079,24 @@ func (ev *SpecEnv) havoc(e ast.Expr) {
 				ev.st.Mem[sv.Region] = ev.ex.fresh("hvmem", ev.st.Mem[sv.Region].S)
 			}
 			return
+		case "mapof":
+			// mapof(m): the contents and length of map m may change
+			v, _ := ev.eval(ce.Args[0])
+			mv, ok := v.(MapV)
+			if !ok {
+				ev.fail("modifies mapof(): not a map")
+			}
+			if mv.Cell == nil {
+				return
+			}
+			old, have := ev.st.Maps[mv.Cell]
+			if !have {
+				ev.fail("modifies mapof(): unknown map")
+			}
+			sz := ev.ex.fresh("hvmlen", old.Size.S)
+			ev.st.assume(ev.ex.geZero(sz))
+			ev.st.Maps[mv.Cell] = &MapState{Vals: ev.ex.fresh("hvmvals", old.Vals.S), Present: ev.ex.fresh("hvmhas", old.Present.S), Size: sz}
+			return
 		case "elems":
 			// elems(s): exactly the elements s[0..len(s)) may change; the rest of the backing array is kept
 			v, _ := ev.eval(ce.Args[0])
@@ -1107,6 +1162,18 @@ func (ex *Exec) havocLike(st *State, v Val, name string) Val {
 			nf[i] = ex.havocLike(st, f, name)
 		}
 		return StructV{Typ: x.Typ, F: nf}
+	case MapV:
+		if x.Cell == nil {
+			return x
+		}
+		save := ex.Inputs
+		ex.resultMode = true
+		nm := ex.symMap(st, fmt.Sprintf("%smap_%d", name, ex.nfreshNext()), x.Typ)
+		ex.resultMode = false
+		ex.Inputs = save
+		return nm
+	case OpaqueV:
+		return OpaqueV{Typ: x.Typ, Id: ex.fresh(name+"id", IntSort)}
 	case PtrV:
 		if x.K == PBig {
 			return PtrV{K: PBig, Ref: ex.fresh(name+"ref", IntSort), Elem: x.Elem}
